@@ -147,7 +147,17 @@ func random(args map[string]string) error {
 				ev["ev"], ev["p"], ev["l"], ev["o"] = "ResetUser", tp, tl, o
 				a := n.alloc
 				target := tsoutil.ComposeTS(w.base.UnixNano()/1e6+int64(tp), int64(tl))
-				pr := w.sched.Go(m+"/reset", func() (interface{}, error) { return nil, a.SetTSO(target) })
+				// every other reset takes the path of a maximum written by a global request (ignoreSmaller)
+				maxts := rng.Intn(2) == 1
+				if maxts {
+					ev["via"] = "maxts"
+				}
+				pr := w.sched.Go(m+"/reset", func() (interface{}, error) {
+					if maxts {
+						return nil, tso.VerifWriteMaxTS(a, target)
+					}
+					return nil, a.SetTSO(target)
+				})
 				_, done, err := pr.Next(wait)
 				if err != nil {
 					return err
